@@ -4,6 +4,7 @@ import (
 	"io"
 	"net"
 	"sync"
+	"sync/atomic"
 
 	"github.com/nsqio/nsq/internal/protocol"
 )
@@ -21,10 +22,35 @@ type Client interface {
 type tcpServer struct {
 	nsqd  *NSQD
 	conns sync.Map
+
+	// every connection that has a handler, whatever state it is in
+	mtx     sync.Mutex
+	handled map[net.Addr]net.Conn
+	idle    *sync.Cond
 }
 
 func (p *tcpServer) Handle(conn net.Conn) {
 	p.nsqd.logf(LOG_INFO, "TCP: new client(%s)", conn.RemoteAddr())
+
+	p.mtx.Lock()
+	if p.handled == nil {
+		p.handled = make(map[net.Addr]net.Conn)
+		p.idle = sync.NewCond(&p.mtx)
+	}
+	p.handled[conn.RemoteAddr()] = conn
+	p.mtx.Unlock()
+	defer func() {
+		p.mtx.Lock()
+		delete(p.handled, conn.RemoteAddr())
+		if len(p.handled) == 0 {
+			p.idle.Broadcast()
+		}
+		p.mtx.Unlock()
+	}()
+	if atomic.LoadInt32(&p.nsqd.isExiting) == 1 {
+		// Close() may have been through the list already: nobody else would close this one
+		conn.Close()
+	}
 
 	// The client should initialize itself by sending a 4 byte sequence indicating
 	// the version of the protocol that it intends to communicate, this will allow us
@@ -66,8 +92,19 @@ func (p *tcpServer) Handle(conn net.Conn) {
 }
 
 func (p *tcpServer) Close() {
-	p.conns.Range(func(k, v interface{}) bool {
-		v.(protocol.Client).Close()
-		return true
-	})
+	p.mtx.Lock()
+	for _, conn := range p.handled {
+		conn.Close()
+	}
+	p.mtx.Unlock()
+}
+
+// Wait returns when no connection has a handler any more (after Close: when
+// every client's IOLoop and message pump have finished)
+func (p *tcpServer) Wait() {
+	p.mtx.Lock()
+	for len(p.handled) > 0 {
+		p.idle.Wait()
+	}
+	p.mtx.Unlock()
 }
